@@ -28,18 +28,37 @@ CRLF = '\r\n'
 
 
 # ----------------------------------------------------------------------------- tracing parser (driver side only)
+# Observation policy: parser internals are read through the public API (execute, is_headers_complete,
+# is_message_complete, is_chunked, recv_body, get_*, errno).  The two private call sites _parse_firstline /
+# _parse_headers are hooked when they exist (they are the mechanism the property anchors); when they do not, the
+# first line and the header block are derived from the bytes fed.  The carried-over buffer `_buf` is compared only
+# when it can be read; otherwise that field is dropped on BOTH sides (flag wbuf of the model encoder).  Something
+# that cannot be observed is counted in stats['degraded'] and never becomes a violation.
+HOOKS = hasattr(RealParser, '_parse_firstline') and hasattr(RealParser, '_parse_headers')
+DEGRADED = {}
+
+
+def degraded(what):
+    DEGRADED[what] = DEGRADED.get(what, 0) + 1
+
+
 class TParser(RealParser):
-    """the real parser plus a record of what its two content-parsing call sites were given"""
+    """the real parser plus a record of the bytes it was fed and of what its two content-parsing call sites were given"""
     created = []
 
     def __init__(self, kind=2, decompress=False):
         super().__init__(kind, decompress)
         self.t_kind = kind
+        self.t_fed = []
         self.t_fl = None          # first line (str) handed to _parse_firstline, if accepted or not
         self.t_fl_ok = None
         self.t_blk = None         # header block handed to the header parser
         self.t_crash = False
         TParser.created.append(self)
+
+    def execute(self, data, length):
+        self.t_fed.append(bytes(data[:length]))
+        return super().execute(data, length)
 
     def _parse_firstline(self, line):
         r = super()._parse_firstline(line)
@@ -65,26 +84,65 @@ def l1(b):
     return bytes(b).decode('latin-1')
 
 
-def joined(x):
-    if isinstance(x, (bytes, bytearray)):
-        return bytes(x)
-    return b''.join(x or [])
+def seen_head(p):
+    """(first line str | None, accepted?, header block bytes | None): from the hooks, else derived from the bytes fed"""
+    if HOOKS:
+        return p.t_fl, p.t_fl_ok, p.t_blk
+    degraded('first line / header block derived from the bytes fed (private call sites not found)')
+    stream = b''.join(p.t_fed)
+    i = stream.find(b'\r\n')
+    if i < 0:
+        return None, None, None
+    fl = stream[:i].decode('latin-1')
+    ok = p.errno != parser_mod.BAD_FIRST_LINE
+    blk = None
+    if ok and (p.is_headers_complete() or p.errno == parser_mod.INVALID_HEADER):
+        after = stream[i + 2:]
+        if after[:2] == b'\r\n':
+            blk = b''
+        else:
+            k = after.find(b'\r\n\r\n')
+            blk = after[:k] if k >= 0 else after
+    return fl, ok, blk
+
+
+def carried(p):
+    """the carried-over bytes (anchored attribute _buf), or None when they cannot be read"""
+    x = getattr(p, '_buf', None)
+    try:
+        if isinstance(x, (bytes, bytearray)):
+            return bytes(x)
+        if isinstance(x, (list, tuple)):
+            return b''.join(x)
+    except TypeError:
+        pass
+    return None
 
 
 def body_so_far(p):
-    """body bytes parsed so far, read through the public recv_body() on a shallow copy (non-destructive)"""
+    """body bytes parsed so far, read through the public recv_body() on a copy (non-destructive)"""
     import copy
-    q = copy.copy(p)
+    try:
+        q = copy.deepcopy(p)
+    except Exception:
+        q = copy.copy(p)
     return q.recv_body()
 
 
-def pstate(p):
+def pstate(p, flags=None):
     """canonical state of a real parser, same shape as Model/HttpFramingObs.obs_state"""
     if p is None:
         return [0, '']
-    buf = l1(joined(p._buf))
-    fl = (p.t_fl or '')
-    blk = l1(p.t_blk or b'')
+    raw = carried(p)
+    if raw is None:
+        degraded('carried-over buffer not readable: field dropped from the comparison')
+        if flags is not None:
+            flags['wbuf'] = False
+        raw = b''
+    buf = l1(raw)
+    fl, fl_ok, blk = seen_head(p)
+    fl = fl or ''
+    blk = l1(blk or b'')
     if p.t_crash:
         return [6]
     hc = p.is_headers_complete()
@@ -97,33 +155,56 @@ def pstate(p):
         if p.is_chunked():
             return [3, fl, blk, body, buf]
         return [2, fl, blk, body]
-    if p.t_fl_ok:
+    if fl_ok:
         return [1, fl, buf]
     return [0, buf]
 
 
+def containers(obj):
+    """the dict / set attributes of a component: per-connection tables are found by content, not by name"""
+    try:
+        return [v for v in vars(obj).values() if isinstance(v, (dict, set))]
+    except TypeError:
+        return None
+
+
 def find_parser(obj, key=None):
-    """the parser a component holds (for key, if it keeps a table): by the attribute the anchors name, else by type"""
-    for name in ('_buffers', '_parser'):
-        v = getattr(obj, name, None)
-        if isinstance(v, dict) and key is not None:
-            return v.get(key)
+    """the parser a component holds: an attribute that is an HttpParser, or (for key) the HttpParser stored under key
+    in one of its dicts"""
+    try:
+        vals = list(vars(obj).values())
+    except TypeError:
+        return None
+    if key is not None:
+        for v in vals:
+            if isinstance(v, dict):
+                try:
+                    w = v.get(key)
+                except TypeError:
+                    continue
+                if isinstance(w, RealParser):
+                    return w
+        return None
+    for v in vals:
         if isinstance(v, RealParser):
             return v
-    for v in vars(obj).values():
-        if isinstance(v, RealParser):
-            return v
-        if isinstance(v, dict) and key is not None and isinstance(v.get(key), RealParser):
-            return v.get(key)
     return None
 
 
-def table_sizes(http):
-    out = []
-    for name in ('_buffers', '_clients'):
-        v = getattr(http, name, None)
-        out.append(len(v) if v is not None else -1)
-    return out
+def conn_entries(http, sock):
+    """how many of the component's tables still hold something for this connection (None: cannot be observed)"""
+    cs = containers(http)
+    if cs is None:
+        degraded('component attributes not enumerable: per-connection tables not observed')
+        return None
+    n = 0
+    for c in cs:
+        try:
+            if sock in c:
+                n += 1
+        except TypeError:
+            pass
+    return n
 
 
 def tc(x):
@@ -143,9 +224,9 @@ def kstate(st):
     return [tc(x) if isinstance(x, str) else x for x in st]
 
 
-def pshort(p):
+def pshort(p, flags=None):
     """tag, length of the carried-over buffer, length of the body so far (Model/HttpFramingObs.obs_short)"""
-    st = pstate(p)
+    st = pstate(p, flags)
     t = st[0]
     if t == 0:
         return [0, len(st[1]), 0]
@@ -173,16 +254,26 @@ def compress(trace):
 
 
 def fl_value(kind, line):
+    """oracle table entry for a first line, evaluated by a fresh real parser through execute()"""
     p = RealParser(kind)
-    ok = p._parse_firstline(line)
-    return None if not ok else (p.get_status_code() == 204)
-
-
-def hd_value(blk):
-    p = RealParser(0)
     try:
-        p._parse_headers(blk + b'\r\n\r\n')
-    except parser_mod.InvalidHeader:
+        p.execute(line.encode('latin-1') + b'\r\n', len(line) + 2)
+    except UnicodeEncodeError:
+        return None
+    if p.errno is not None:
+        return None
+    return p.get_status_code() == 204
+
+
+GOOD_FL = {0: b'GET / HTTP/1.1\r\n', 1: b'HTTP/1.1 200 OK\r\n'}
+
+
+def hd_value(blk, kind=0):
+    """oracle table entry for a header block, evaluated by a fresh real parser through execute()"""
+    p = RealParser(kind)
+    data = GOOD_FL[kind] + blk + b'\r\n\r\n'
+    p.execute(data, len(data))
+    if p.errno is not None and not p.is_headers_complete():
         return None
     raw = p.get_headers().get('content-length')
     try:
@@ -306,17 +397,23 @@ def drive_parser(kind, reads, tables):
                 p.execute(d, len(d))
             except Exception:
                 p.t_crash = True
-        trace.append([pshort(p), [[2]] if p.t_crash else []])
+        trace.append([pshort(p, tables), [[2]] if p.t_crash else []])
     note_tables(tables, [p])
-    return [compress(trace), pstate(p)]
+    return [compress(trace), pstate(p, tables)]
 
 
 def note_tables(tables, parsers):
     for p in parsers:
-        if p.t_fl is not None:
-            tables['fl'][(p.t_kind, p.t_fl)] = fl_value(p.t_kind, p.t_fl)
-        if p.t_blk is not None:
-            tables['hd'][bytes(p.t_blk)] = hd_value(bytes(p.t_blk))
+        fl, _, blk = seen_head(p)
+        if fl is not None:
+            tables['fl'][(p.t_kind, fl)] = fl_value(p.t_kind, fl)
+        if blk:
+            tables['hd'][bytes(blk)] = hd_value(bytes(blk), p.t_kind if p.t_kind in (0, 1) else 0)
+
+
+def ev_msg(p, body):
+    fl, _, blk = seen_head(p)
+    return [0, fl or '', l1(blk or b''), body]
 
 
 def drive_server(msgs_reads, tables):
@@ -345,12 +442,12 @@ def drive_server(msgs_reads, tables):
                 evs = []
                 for rec in new:
                     if rec[0] == 'request':
-                        evs.append([0, p.t_fl or '', l1(p.t_blk or b''), rec[6]])
+                        evs.append(ev_msg(p, rec[6]))
                     elif rec[0] == 'httperror' and rec[1] == 400 and not any(r[0] == 'request' for r in new):
                         evs.append([1])
                     elif rec[0] == 'httperror' and rec[1] in (500, None) and not any(r[0] == 'request' for r in new):
                         evs.append([2])
-                trace.append([pshort(find_parser(http, sock)), evs])
+                trace.append([pshort(find_parser(http, sock), tables), evs])
                 for rec in new:
                     if rec[0] == 'write':
                         log.append(['write', strip_date(rec[1])])
@@ -364,7 +461,7 @@ def drive_server(msgs_reads, tables):
                 flat[-1] = ['write', flat[-1][1] + rec[1]]
             else:
                 flat.append(list(rec))
-        return [compress(trace), pstate(find_parser(http, sock))], flat, table_sizes(http)
+        return [compress(trace), pstate(find_parser(http, sock), tables)], flat, conn_entries(http, sock)
     finally:
         webhttp.HttpParser = old
 
@@ -406,14 +503,14 @@ def drive_client(msgs_reads, tables):
                 except AttributeError:
                     pass
                 new = probe.log[n0:]
-                evs = [[0, p.t_fl or '', l1(p.t_blk or b''), rec[4]] for rec in new]
+                evs = [ev_msg(p, rec[4]) for rec in new]
                 if p.t_crash:
                     evs.append([2])
-                trace.append([pshort(find_parser(comp)), evs])
+                trace.append([pshort(find_parser(comp), tables), evs])
                 log.extend(new)
         note_tables(tables, TParser.created)
         last = cl.response
-        return [compress(trace), pstate(find_parser(comp))], log, None if last is None else [last.status, l1(last.body.getvalue())]
+        return [compress(trace), pstate(find_parser(comp), tables)], log, None if last is None else [last.status, l1(last.body.getvalue())]
     finally:
         parsers_pkg.HttpParser = old
         try:
@@ -619,7 +716,7 @@ class C13(Prop):
     trusted_base = ['hand-written model Model/HttpFraming.v tied to the current implementation by this correspondence run '
                     '(state of the connection parser and events after every read)',
                     'first-line and header-block content parsing are oracles (Section variables); for running the model '
-                    'they are tables recorded from the real _parse_firstline/_parse_headers calls',
+                    'they are tables keyed by what the real parser was given (hooked call sites, else derived from the bytes fed) and evaluated by a fresh real parser through execute()',
                     'python oracle in harness/c13.py (one-piece vs segmented; generator knowledge of the message)']
     assumptions = ['reads are non-empty (the socket layer closes instead of firing read(b""))',
                    'no pipelining: a read never spans two messages',
@@ -703,7 +800,7 @@ class C13(Prop):
     # ---- implementation
     def impl(self, c):
         k = c['k']
-        tables = {'fl': {}, 'hd': {}}
+        tables = {'fl': {}, 'hd': {}, 'wbuf': True}
         seg = [reads_of(m) for m in c['msgs']]
         whole = [[m['bytes'].encode('latin-1')] for m in c['msgs']]
         st = self.stats
@@ -731,6 +828,8 @@ class C13(Prop):
         tag = obs['trace'][1][0]
         st['final_tags'][str(tag)] = st['final_tags'].get(str(tag), 0) + 1
         self._tables[common.canon(c)] = tables
+        if DEGRADED:
+            st['degraded'] = dict(DEGRADED)
         return obs
 
     # ---- model
@@ -738,7 +837,7 @@ class C13(Prop):
         tables = self._tables.get(common.canon(c))
         if tables is None:
             self.safe_impl(c)
-            tables = self._tables.get(common.canon(c), {'fl': {}, 'hd': {}})
+            tables = self._tables.get(common.canon(c), {'fl': {}, 'hd': {}, 'wbuf': True})
         k = c['k']
         kind = 1 if k in ('parser1', 'client') else 0
         mode = 0 if k.startswith('parser') else 1 if k == 'server' else 2
@@ -784,8 +883,8 @@ class C13(Prop):
                 ranges[-1][1] = x
             else:
                 ranges.append([x, x])
-        return 'obs_run %d%%nat %s %s [%s] %s %s %s %s' % (
-            mode, 'true' if kind else 'false', '[%s]' % ';'.join('x%02x' % b for b in msg),
+        return 'obs_run %d%%nat %s %s %s [%s] %s %s %s %s' % (
+            mode, 'true' if kind else 'false', 'true' if tables.get('wbuf', True) else 'false', '[%s]' % ';'.join('x%02x' % b for b in msg),
             ';'.join('(%d%%N,%d%%N)' % (a, b) for a, b in ranges), sfl, lfl, shd, lhd)
 
     def obs_for_model(self, c, obs):
@@ -818,7 +917,8 @@ class C13(Prop):
                     return 'expectation: body %r differs from the body sent %r' % (a[3], e['body'])
             return None
         if k == 'server':
-            if obs['log'] != obs['log_whole'] or obs['tabs'] != obs['tabs_whole']:
+            tabs_differ = None not in (obs['tabs'], obs['tabs_whole']) and obs['tabs'] != obs['tabs_whole']
+            if obs['log'] != obs['log_whole'] or tabs_differ:
                 return 'segmentation: requests seen / bytes written %r differ from one-piece delivery %r' % (
                     trim(obs['log']), trim(obs['log_whole']))
             reqs = [r for r in obs['log_whole'] if r[0] == 'request']
@@ -830,8 +930,9 @@ class C13(Prop):
                     w = match_request(r, e)
                     if w:
                         return 'expectation: ' + w
-                if obs['tabs_whole'] != [0, 0]:
-                    return 'expectation: per-connection tables not empty after the last response: %r' % (obs['tabs_whole'],)
+                if obs['tabs_whole'] is not None and obs['tabs_whole'] != 0:
+                    return ('expectation: %d of the component tables still hold an entry for the connection after the last '
+                            'response' % obs['tabs_whole'])
             return None
         # client
         if obs['log'] != obs['log_whole'] or obs['last'] != obs['last_whole'] or obs['final'] != obs['final_whole']:
